@@ -321,8 +321,40 @@ fn json_toks(t: &Toks) -> serde_json::Value {
 
 // ---------------------------------------------------------------- family lex
 
+/// D6 shape at token level: a token that raises the carried flag, then comments without a closing
+/// `-`, then content or a raw body that starts with White_Space.
+fn d6_tokens(toks: &Toks) -> bool {
+    for i in 0..toks.len() {
+        let raises = matches!(&toks[i].0, TokK::VarEnd(true) | TokK::TagEnd(true) | TokK::Raw(_, _, true) | TokK::Comment(_, true));
+        if !raises {
+            continue;
+        }
+        let mut j = i + 1;
+        while j < toks.len() && matches!(&toks[j].0, TokK::Comment(_, false)) {
+            j += 1;
+        }
+        if j > i + 1 && j < toks.len() {
+            if let TokK::Content(b) | TokK::Raw(_, b, _) = &toks[j].0 {
+                let s = String::from_utf8_lossy(b);
+                if s.trim_start() != s {
+                    return true;
+                }
+            }
+        }
+    }
+    false
+}
+
 fn push_lex(sink: &mut Sink, meta: &mut Meta, dl: &Dl, src: &str, filtered: bool, tag: &str) {
     let r = real_lex(src, dl, filtered);
+    let kf = if filtered {
+        match real_lex(src, dl, false) {
+            Outcome::Ok(t) if d6_tokens(&t) => Some("ws:trim-carried-across-comment"),
+            _ => None,
+        }
+    } else {
+        None
+    };
     let g = format!(
         "{{| x_dl := {}; x_src := {}; x_filtered := {}; x_impl := {} |}}",
         dl.gal(), gal_bytes(src.as_bytes()), gal_bool(filtered), r.gal(gal_toks)
@@ -351,7 +383,7 @@ fn push_lex(sink: &mut Sink, meta: &mut Meta, dl: &Dl, src: &str, filtered: bool
     };
     let res = match &r { Outcome::Ok(_) => "impl:ok", Outcome::Err(..) => "impl:err", Outcome::Panic(_) => "impl:panic" };
     let f = if filtered { "filtered" } else { "raw" };
-    sink.push(g, desc, nontrivial, None, &[tag, res, f]);
+    sink.push(g, desc, nontrivial, kf, &[tag, res, f]);
 }
 
 // ---------------------------------------------------------------- family render
